@@ -193,6 +193,15 @@ class Ctx:
         env = dict(os.environ)
         env.update(GOENV)
         cmd = ["go", "build", "-tags", "verif"]
+        if REPO != "/repo":
+            # testing against a scratch worktree: same module, replace directive redirected
+            alt = os.path.join(self.out, "alt.mod")
+            with open(os.path.join(HARNESS, "go.mod")) as f:
+                mod = f.read().replace("=> /repo", "=> " + REPO)
+            with open(alt, "w") as f:
+                f.write(mod)
+            open(os.path.join(self.out, "alt.sum"), "w").close()
+            cmd.append("-modfile=" + alt)
         if race:
             cmd.append("-race")
         cmd += ["-o", binp, "./cmd/replay"]
